@@ -34,6 +34,13 @@ def gen_operand(rng, kind=None, fam=None, base=None, aware=None):
     start = (base if base is not None else 0) + rng.choice([0, 0, 1, 2, 5, 40])
     n = rng.randint(1, 12)
     vals = [rng.choice([0.0, round(rng.uniform(-20, 300), 3), round(rng.uniform(0, 3), 4)]) for _ in range(n)]
+    flavour = rng.random()
+    if flavour < 0.12:
+        vals = [-round(rng.uniform(0.001, 300), 3) for _ in range(n)]        # strictly negative at every hour (freed storage)
+    elif flavour < 0.2:
+        vals = [round(rng.uniform(0.5, 300), 3) for _ in range(n)]           # strictly positive at every hour
+    elif flavour < 0.25:
+        vals = [float(rng.randint(-9, 9)) for _ in range(n)]                 # whole numbers of both signs
     return {"k": "h", "start": start, "vs": vals, "u": unit, "fam": fam,
             "aware": rng.random() < 0.5 if aware is None else aware}
 
